@@ -17,7 +17,7 @@
               accepted for it (open).
      xfh      X-Forwarded-Host: "absent" | "mapped" (b.example) | "list"
               ("B.Example , c.example") | "unmapped" | "empty"
-     host     Host: "mapped" (a.example) | "unmapped"
+     host     Host: "mapped" (a.example) | "unmapped" | "empty" | "absent" (HTTP/1.0 request)
      path     where the request was routed: "a" | "b" | "root" | "other"
      infl     BOOLEAN: request.path differs from what the same request
               without the X-Forwarded-Host header gets = the header influenced
